@@ -41,6 +41,9 @@ FIXED = [
  "fixed: property=C13 c961fbe TRANSPOSE of a tensor without quantisation parameters aborted with AttributeError, register_command_stream_generator.py:generate_ofm_scaling_for_pooling (findings/FX-transpose-noquant.C13.json)",
  "fixed: property=C02 132d556 single (non double-buffered) weight buffer sized for the even depth slices only: the DMA of a larger odd slice overran the published fast-scratch extent; CONV_2D 7x7 dil 2, 256->32 ch, ethos-u65-512 Dedicated_Sram --arena-cache-size 109605 (findings/FX-single-weight-buffer.C02.json)",
  "fixed: property=C03 b9658ce reused 1 KiB lookup table got LUT index offset//1024 instead of offset//256: LOGISTIC ; SOFTMAX ; SOFTMAX on ethos-u55-128 read an SHRAM slot that was never loaded (findings/FX-lut-index-reuse.C03.json)",
+ "fixed: property=C14 6b67d8d main(A);main(B) / convert(A);convert(B) in one process died with AssertionError 'Two different addresses cannot be assigned to the same tensor' when A and B share a LUT, and main(A);main(A) produced a different output file (MEAN / TANH / RESIZE_BILINEAR network): TensorAddressMap, lru-cached equivalence ids and CompressedWeightCache survived a compilation",
+ "fixed: property=C18 651e96b '--config Arm/vela.ini' (documented example) rejected with 'Section ... not found' unless the working directory contains Arm/vela.ini; a decoy Arm/vela.ini in the working directory was used instead of the bundled one (vela.py passed args.config instead of the resolved paths)",
+ "fixed: property=C18 4b72eeb arena_cache_size of the selected memory mode ignored (option default 393216 always 'overrode' the file; out-of-range file values accepted silently)",
  "fixed: property=C12 3e245fc elementwise operator executed in place over an NPU-subgraph input (produced by a CPU operator) that a later subgraph still reads: CONV_2D(stride 4, CPU) -> MINIMUM(NPU) -> CUSTOM(CPU) ; RELU of the conv output in a second NPU subgraph (findings/F05-inplace-elementwise-shared-input.C12.json)",
 ]
 EXTRA = [
